@@ -40,6 +40,8 @@ theorem run_state (K : Kernels α) : ∀ (ops : List (Op α)) (o : Obj α),
     | filters v => simp only [run, step, cfgChan, cfgNv, run_state K ops]
     | sinr v => simp only [run, step, cfgChan, cfgNv, run_state K ops]
     | channel => simp only [run, step, cfgChan, cfgNv, run_state K ops]
+    | noiseVar => simp only [run, step, cfgChan, cfgNv, run_state K ops]
+    | layers => simp only [run, step, cfgChan, cfgNv, run_state K ops]
 
 /-- observations do not change the state -/
 theorem step_obs_state (K : Kernels α) (o : Obj α) (op : Op α)
@@ -52,6 +54,8 @@ theorem step_obs_state (K : Kernels α) (o : Obj α) (op : Op α)
   | filters v => rfl
   | sinr v => rfl
   | channel => rfl
+  | noiseVar => rfl
+  | layers => rfl
 
 /-- outside the Blast family the noise variance is never touched -/
 theorem cfgNv_other (s : Scheme) (hs : s.blastFamily = false) (v0 : α) :
@@ -220,6 +224,8 @@ theorem step_err_state {α : Type} [Zero α] [One α] [Add α] [Sub α] [Mul α]
   | filters v => rfl
   | sinr v => rfl
   | channel => rfl
+  | noiseVar => rfl
+  | layers => rfl
 
 end Pf
 end PyPhysim.C04
